@@ -86,9 +86,16 @@ def C45(ctx):
     def lap(what):
         log("C45 %s: %.1fs" % (what, time.time() - t0[0]))
         t0[0] = time.time()
+    from concurrent.futures import ThreadPoolExecutor
     # S: laws of the rule set on nominal / one variation / all pairs of variations x VM versions
-    r = tlc("WasmRules", "MCWasmRules", workers=4, coverage=False,
-            consts={"PairMode": '"all"', "PairVersions": "{2}" if q else "{0, 1, 2}"})
+    # G: cases with expected verdict / input structure / output structure computed by TLA+ (concurrent TLC runs)
+    jobs = [("S", "MCWasmRules", {"PairMode": '"all"', "PairVersions": "{2}" if q else "{0, 1, 2}"}),
+            ("G", "GenWasmRules", {"PairMode": '"pw"' if q else '"allnh"', "PairVersions": "{2}"})]
+    if not q:
+        jobs.append(("G2", "GenWasmRules", {"PairMode": '"pw"', "PairVersions": "{0, 1}"}))
+    with ThreadPoolExecutor(max_workers=3) as ex:
+        res = dict(ex.map(lambda j: (j[0], tlc("WasmRules", j[1], workers=4, coverage=False, consts=j[2])), jobs))
+    r = res["S"]
     tlc_must_pass(r, "MCWasmRules")
     ctx.add_tlc(r)
     # non-vacuity without -coverage (the coverage reporter runs out of memory on this module's recursive
@@ -96,22 +103,17 @@ def C45(ctx):
     # only exist if Single fired.  The reject classes are covered by the ASSUME in MCWasmRules.
     if r.distinct < (20000 if q else 70000):
         raise ToolError("MCWasmRules explored only %d states (Pair action not exercised)" % r.distinct)
-    lap("S")
-    # G: cases with expected verdict / input structure / output structure computed by TLA+
-    g = tlc("WasmRules", "GenWasmRules", workers=4, coverage=False,
-            consts={"PairMode": '"pw"' if q else '"allnh"', "PairVersions": "{2}"})
+    g = res["G"]
     tlc_must_pass(g, "GenWasmRules")
     cases = g.printed("B")
     if not q:
-        g2 = tlc("WasmRules", "GenWasmRules", workers=4, coverage=False,
-                 consts={"PairMode": '"pw"', "PairVersions": "{0, 1}"})
-        tlc_must_pass(g2, "GenWasmRules(v0,v1)")
-        cases += [c for c in g2.printed("B") if c["id"][1] != 0]
+        tlc_must_pass(res["G2"], "GenWasmRules(v0,v1)")
+        cases += [c for c in res["G2"].printed("B") if c["id"][1] != 0]
+    lap("S+gen")
     ctx.sample({"case": {k: cases[0][k] for k in ("id", "d", "v", "exp")}})
     pick = [c for c in cases if c["exp"] == "MemorySizeLimitExceeded"][:1] + [c for c in cases if c["id"][1] != 0][:1]
     for c in pick:
         ctx.sample({"case": {k: c[k] for k in ("id", "d", "v", "exp")}})
-    lap("gen")
     mism, other, done = run_cases(ctx, "rules", cases)
     lap("replay")
     for o in mism:
@@ -186,7 +188,7 @@ def C45(ctx):
         if ev["verdict"] == "panic":
             return "rules:panic:" + ev["src"]
         return "rules:accepted-violates:" + ev["src"]
-    calls_check(ctx, "WasmRules", "TraceWasmRules", allev, "rules", key, "validate() recording", chunks=10)
+    calls_check(ctx, "WasmRules", "TraceWasmRules", allev, "rules", key, "validate() recording", chunks=5 if q else 12)
     lap("trace validation")
     # binding self-test (T): corrupted recordings must be rejected
     good = next(e for e in bevs if e["src"] == "blob" and e["verdict"] == "ok")
@@ -341,7 +343,7 @@ def C46(ctx):
             if r["instr"].get("o") == "panic" or r["orig"].get("o") == "panic":
                 return "meter:panic"
         return "meter:trace"
-    calls_check(ctx, "WasmMeter", "TraceWasmMeter", evs, "meter", key, "metered execution recording", chunks=8 if q else 12)
+    calls_check(ctx, "WasmMeter", "TraceWasmMeter", evs, "meter", key, "metered execution recording", chunks=4 if q else 12)
     # binding self-test (T): corrupted recordings must be rejected
     base = next(e for e in evs if len(e["runs"]) >= 2 and e["runs"][0]["path"] == e["runs"][1]["path"] and e["runs"][0]["instr"]["o"] == "ok")
     cor = []
@@ -370,31 +372,48 @@ def C46(ctx):
 
 def C47(ctx):
     q = ctx.quick
+    from concurrent.futures import ThreadPoolExecutor
     # S: exhaustive 16-cell instance (every ptr/len pair, reads, writes, grows; position-tagged cells)
+    # G: boundary classes at real scale, expected bytes computed by TLA+  (independent TLC runs, concurrently)
+    jobs = [("S", "MCWasmMem", dict(workers=4, coverage=False) if q else dict(workers=4, consts={"MaxOps": 3}))]
+    for name, fset in (("G1", "{1,2,3,4,5,6,7,8}"), ("G2", "{9,10,11,12,13,14,15,16,17,18,19}"),
+                       ("G3", "{20,21,22,23,24,25,26,27,28,29,30}")):
+        jobs.append((name, "GenWasmMem", dict(workers=2, coverage=False, consts={"PageSet": "{1}", "FnSet": fset})))
+    jobs.append(("Gsizes", "GenWasmMem", dict(workers=2, coverage=False,
+                                              consts={"PageSet": "{0, 2, 64}", "FnSet": "{1, 4, 14, 17}" if q else "{}"})))
+    if not q:
+        jobs.append(("Gsizes2", "GenWasmMem", dict(workers=2, coverage=False,
+                                                   consts={"PageSet": "{3, 63}", "FnSet": "{1, 2, 4, 13, 14, 17}"})))
+
+    def run(job):
+        name, mod, kw = job
+        rr = tlc("WasmMem", mod, **kw)
+        return name, rr
+    with ThreadPoolExecutor(max_workers=3 if q else 4) as ex:
+        res = dict(ex.map(run, jobs))
+    r = res.pop("S")
     if q:
-        r = tlc("WasmMem", "MCWasmMem", workers=4, coverage=False)
         tlc_must_pass(r, "MCWasmMem")
         if r.distinct < 20000:      # 3 initial + reads + writes + grows and their successors
             raise ToolError("MCWasmMem explored only %d states" % r.distinct)
     else:
-        r = tlc("WasmMem", "MCWasmMem", workers=4, consts={"MaxOps": 3})
         tlc_must_pass(r, "MCWasmMem", required_actions=["HostRead", "HostWrite", "Grow"])
     ctx.add_tlc(r)
-    # G: boundary classes at real scale, expected bytes computed by TLA+
-    g = tlc("WasmMem", "GenWasmMem", workers=4, coverage=False, consts={"PageSet": "{1}", "FnSet": "{}"})
-    tlc_must_pass(g, "GenWasmMem")
-    cases = g.printed("B")
-    fns = g.printed("FNS")
+    cases, fns = [], []
+    seen_cases = set()
+    for name in sorted(res):
+        g = res[name]
+        tlc_must_pass(g, "GenWasmMem(%s)" % name)
+        fns = g.printed("FNS") or fns
+        for c in g.printed("B"):
+            k = json.dumps(c, sort_keys=True)
+            if k not in seen_cases:       # "ret"/"consume" cases are emitted by every G run
+                seen_cases.add(k)
+                cases.append(c)
     if len(fns) < 1 or len(fns[0]["fns"]) < 30:
         raise ToolError("host function table not emitted")
-    g2 = tlc("WasmMem", "GenWasmMem", workers=4, coverage=False,
-             consts={"PageSet": "{0, 2, 64}", "FnSet": "{1, 4, 14, 17}" if q else "{}"})
-    tlc_must_pass(g2, "GenWasmMem(sizes)")
-    cases += g2.printed("B")
-    if not q:
-        g3 = tlc("WasmMem", "GenWasmMem", workers=4, coverage=False, consts={"PageSet": "{3, 63}", "FnSet": "{1, 2, 4, 13, 14, 17}"})
-        tlc_must_pass(g3, "GenWasmMem(sizes 2)")
-        cases += g3.printed("B")
+    if {c.get("fn") for c in cases if c["op"] == "host"} != {f["n"] for f in fns[0]["fns"]}:
+        raise ToolError("not every host function of the table has cases")
     for pick in (lambda c: c["op"] == "host" and c["exp"]["ok"] and c["args"][1] != [0, 0],
                  lambda c: c["op"] == "host" and not c["exp"]["ok"],
                  lambda c: c["op"] == "consume" and c["exp"]["ok"] and c["blen"] > 1):
@@ -427,7 +446,7 @@ def C47(ctx):
     fp = ctx.wpath("mem-fns.ndjson")
     write_ndjson(fp, fns[:1])
     tp = ctx.wpath("mem-trace.ndjson")
-    vh(BIN, ["mem", "record", "seed=%d" % ctx.seed, "n=%d" % (2500 if q else 60000), "threads=%d" % THREADS,
+    vh(BIN, ["mem", "record", "seed=%d" % ctx.seed, "n=%d" % (2000 if q else 60000), "threads=%d" % THREADS,
              "big=%d" % (1 if q else 2)], stdin_path=fp, stdout_path=tp)
     evs = read_ndjson(tp)
     os.unlink(tp)
@@ -445,7 +464,7 @@ def C47(ctx):
         if oc not in ("ok", "MemoryAccessError"):
             return "mem:%s:other-error" % ev["op"]
         return "mem:%s:trace" % ev["op"]
-    calls_check(ctx, "WasmMem", "TraceWasmMem", evs, "mem", key, "host memory access recording", chunks=10)
+    calls_check(ctx, "WasmMem", "TraceWasmMem", evs, "mem", key, "host memory access recording", chunks=4 if q else 12)
     # binding self-test (T)
     good = next(e for e in evs if e["op"] == "host" and e["got"]["outcome"] == "ok" and e["got"]["bufs"][0]["n"] > 0)
     bad_oob = next(e for e in evs if e["op"] == "host" and e["got"]["outcome"] == "MemoryAccessError")
